@@ -240,3 +240,11 @@ def viewOK (c : Ctx) (v : GeneView) : Bool :=
     else decide (l.start ≤ v.start) && decide (v.start < v.end) && decide (v.end ≤ l.end)
 
 end ASV.Packing.Spec
+
+namespace ASV.Packing.Spec
+open ASV ASV.Packing
+
+/-- two locations share a base of the record (set-of-bases reading) -/
+def SharesBase (a b : Loc) : Prop := ∃ i : Int, a.mem i = true ∧ b.mem i = true
+
+end ASV.Packing.Spec
